@@ -246,6 +246,6 @@ End D.
 Lemma declared_full_no_extras : forall T fo ds,
   declared_full T fo no_extras ds = (None, declared T (fo_base fo) ds).
 Proof.
-  intros T fo ds. unfold declared_full, pre_phase, declared, fold_descs. cbn [ex_self ex_refs ex_jsx ex_jsx_types ex_jsdoc ex_header no_extras].
-  destruct (do_types (fo_base fo)); destruct (fo_jsx fo); reflexivity.
+  intros T fo ds. unfold declared_full, pre_phase, declared, fold_descs. unfold jsx_eff, jsx_types_eff. cbn [ex_self ex_refs ex_jsx ex_jsx_types ex_jsdoc ex_header ex_def_jsx ex_def_jsx_types ex_res_types no_extras option_map].
+  destruct (do_types (fo_base fo)); destruct (fo_jsx fo); destruct (do_typed (fo_base fo)); reflexivity.
 Qed.
